@@ -85,6 +85,48 @@ func c19Project(pts []*object.Point, code int, n int) string {
 
 // c19ShiftBurst shifts one ID n times (a function that remembers its last argument is hit again and again while other
 // goroutines do the same with another ID) and renders every result.
+// c19Progress counts finished library calls of the concurrent phases; c19Wait waits for a group of goroutines and gives
+// up when NOT A SINGLE call has finished anywhere for 90 seconds while goroutines are still outstanding. The slowest
+// single call of a workload takes seconds even under the race detector on a busy machine; no progress at all for 90 s
+// means the calls are blocked on each other (a lock taken twice, a writer waiting for readers that wait for it).
+var c19Progress atomic.Int64
+
+func c19Wait(wg *sync.WaitGroup) bool {
+	done := make(chan struct{})
+	go func() { wg.Wait(); close(done) }()
+	last, idle := c19Progress.Load(), 0
+	for {
+		select {
+		case <-done:
+			return true
+		case <-time.After(5 * time.Second):
+			if cur := c19Progress.Load(); cur != last {
+				last, idle = cur, 0
+			} else if idle += 5; idle >= 90 {
+				return false
+			}
+		}
+	}
+}
+
+// c19FreshCRS converts a 300-point list to an EPSG code this process has not used before (UTM zones, then the rest of
+// the bundled table), so that whatever the library does on the FIRST use of a reference system happens while other
+// goroutines are converting. The result is not compared (it depends on which code is next).
+var c19NextCRS atomic.Int64
+
+func c19FreshCRS(pts []*object.Point) string {
+	i := int(c19NextCRS.Add(1) - 1)
+	code := 32601 + i
+	if i >= 60 {
+		code = 32701 + (i - 60)
+	}
+	if i >= 120 {
+		code = knownCRS[i%len(knownCRS)]
+	}
+	_, _ = shape.ConvertPointListToProjectedPointList(pts, code)
+	return "done"
+}
+
 func c19ShiftBurst(id string, n int) string {
 	var sb strings.Builder
 	for i := 0; i < n; i++ {
@@ -534,6 +576,7 @@ func checkC19(c *CaseC19, fl *Fails) {
 						continue
 					}
 					got := c19Ops[c.Calls[i]].f(w)
+					c19Progress.Add(1)
 					if got != want[i] {
 						mu.Lock()
 						bad = append(bad, mismatch{i, got})
@@ -543,7 +586,11 @@ func checkC19(c *CaseC19, fl *Fails) {
 			}(g)
 		}
 		close(start)
-		wg.Wait()
+		if !c19Wait(&wg) {
+			fl.Add("calls-never-return", "the concurrent calls of this workload stopped returning: no call finished for 90 s while goroutines were still inside the library (run alone, the same calls took milliseconds)")
+			fl.Stuck = true
+			return
+		}
 	}
 	for _, m := range bad {
 		fl.Add("result-differs", "call %d (%s) returned a different result when run concurrently: %.200s / alone: %.200s", m.call, c19Ops[c.Calls[m.call]].name, m.got, want[m.call])
@@ -666,6 +713,12 @@ func c19Fan(c *CaseC19, w *c19World, fl *Fails) {
 	for i := int64(0); i < 512; i++ {
 		kids = append(kids, ref.Box{H: b0.H + 3, X: b0.X*8 + i%8, Y: b0.Y*8 + (i/8)%8, V: b0.V + 3, F: b0.F*8 + i/64}.Ext())
 	}
+	var manyPts []*object.Point
+	for i := 0; i < 2000; i++ {
+		if p, err := object.NewPoint(139.5+float64(i%50)*0.01, 35.5+float64(i/50)*0.01, float64(i%7)); err == nil {
+			manyPts = append(manyPts, p)
+		}
+	}
 	var sp512 []string
 	for i := int64(0); i < 512; i++ {
 		sp512 = append(sp512, ref.Box{H: 12, X: 100 + i%32, Y: 200 + i/32, V: 12, F: -3}.Spatial())
@@ -694,6 +747,11 @@ func c19Fan(c *CaseC19, w *c19World, fl *Fails) {
 		{"transform.GetExtendedSpatialIdsWithinRadiusOfLine(not measured)", func(w *c19World) string {
 			return cs(transform.GetExtendedSpatialIdsWithinRadiusOfLine(w.cpts[0], w.cpts[1], w.radius, w.ch, w.ch, true))
 		}},
+		{"shape.ConvertPointListToProjectedPointList(3857, 2000 points)", func(*c19World) string {
+			pp, e := shape.ConvertPointListToProjectedPointList(manyPts, 3857)
+			return fmt.Sprint(len(pp), errStr(e))
+		}},
+		{"shape.ConvertPointListToProjectedPointList(first use of another EPSG code)", func(*c19World) string { return c19FreshCRS(manyPts[:300]) }},
 		{"operated.GetShiftingSpatialID(one ID) x300", func(w *c19World) string { return c19ShiftBurst(w.ext[0], 300) }},
 		{"operated.GetShiftingSpatialID(another ID) x300", func(w *c19World) string {
 			b, _ := ref.ParseExt(w.ext[0])
@@ -730,7 +788,9 @@ func c19Fan(c *CaseC19, w *c19World, fl *Fails) {
 				<-start
 				for s := 0; s < steps; s++ {
 					k := pick(g, s)
-					if got := heavy[k].f(w); got != want[k] {
+					got := heavy[k].f(w)
+					c19Progress.Add(1)
+					if got != want[k] {
 						mu.Lock()
 						if bad == "" {
 							bad = fmt.Sprintf("%s returned a different result with %d goroutines in flight: %.200s / alone: %.200s", heavy[k].name, c.Fan, got, want[k])
@@ -741,13 +801,22 @@ func c19Fan(c *CaseC19, w *c19World, fl *Fails) {
 			}(g)
 		}
 		close(start)
-		wg.Wait()
+		if !c19Wait(&wg) {
+			fl.Add("calls-never-return", "fan-out of %d goroutines: no call finished for 90 s while goroutines were still inside the library (run alone, every one of these calls returned)", c.Fan)
+			fl.Stuck = true
+		}
 	}
-	for k := 0; k+1 < len(heavy); k += 2 { // all goroutines in the same function, two argument variants
+	for k := 0; k+1 < len(heavy) && !fl.Stuck; k += 2 { // all goroutines in the same function, two argument variants
 		k := k
 		run(func(g, _ int) int { return k + g%2 }, 1)
 	}
+	if fl.Stuck {
+		return
+	}
 	run(func(g, s int) int { return (g + s) % len(heavy) }, 3) // mixed
+	if fl.Stuck {
+		return
+	}
 	Count("c19_fan_calls", int64(c.Fan*(len(heavy)/2+3)))
 	if bad != "" {
 		fl.Add("fan-result-differs", "%s", bad)
